@@ -40,6 +40,8 @@ type Obl struct {
 	Pos     string
 	Cover   bool // must be SAT (vacuity guard)
 	Short   bool // listed as an open known finding: solve with a short budget
+	Masked  bool // goal is "post OR mask" of a recorded finding
+	Probe   bool // the unmasked conjunct of a recorded finding (failing = finding still present)
 	Text    string
 	gen     *Gen
 	// result
